@@ -204,6 +204,20 @@ def run_case(c):
             return dict(failures=fails, nontrivial=len(oids) >= 2, key=key)
         if m.shape != refm.shape or not oracle.close(m, refm, tol=1e-9):
             fail('OpChain.as_matrix', 'dense', f'deviates from coeff * Kronecker product by {np.linalg.norm(m - refm) if m.shape == refm.shape else m.shape}')
+        # the same word with a complex coefficient over purely real (or integer) local matrices: the result is complex
+        if c['seed'] % 3 != 1:
+            zc = coeff * (0.6 + 0.8j)
+            opr = {o: (np.rint(2 * np.real(M_)).astype(np.int64) if c['seed'] % 3 == 2 else np.real(M_).copy()) for o, M_ in opmap.items()}
+            refz = zc * np.identity(1)
+            for o in oids:
+                a, b = refz, opr[o]
+                refz = np.einsum('ij,kl->ikjl', a, b).reshape(a.shape[0] * b.shape[0], a.shape[1] * b.shape[1])
+            try:
+                mz = np.asarray(ptn.OpChain(oids, qn, zc, istart).as_matrix(opr))
+                if mz.shape != refz.shape or not oracle.close(mz, refz, tol=1e-9):
+                    fail('OpChain.as_matrix', 'dense', f'complex coefficient {zc} over real local matrices: deviates from coeff * Kronecker product by {np.linalg.norm(mz - refz) if mz.shape == refz.shape else mz.shape}')
+            except Exception as e:
+                fail('OpChain.as_matrix', 'returns', f'complex coefficient {zc} over real local matrices: raised {type(e).__name__}: {e}')
         # the padded chain denotes the identity-padded word
         L = istart + len(oids) + int(rng.integers(0, 2))
         if d ** L <= 300:
